@@ -197,6 +197,12 @@ func preliminaryProcessesChecks(processes []*Process, assumedFreeNames []Name, g
 
 		// Check for uniqueness of provider names compared to all processes
 		for _, provider := range processes[i].Providers {
+			// 'self' is a keyword: it refers to the provider inside a body and cannot name a process
+			// (the processes made for 'exec' statements carry a generated identifier)
+			if provider.IsSelf && provider.Ident == "" {
+				return fmt.Errorf("(%s) in process definition %s, 'self' cannot be used as the name of a process. Please use a different name", processes[i].Position.String(), processes[i].OutlineString())
+			}
+
 			if allProcessNames[provider.Ident] {
 				return fmt.Errorf("(%s) in process definition %s, the provider used (%s) is already in use by other processes. Please use a different name", processes[i].Position.String(), processes[i].OutlineString(), provider.Ident)
 			}
